@@ -91,3 +91,41 @@ Definition geo1_code (r : res geo1) : option (list Z) :=
   match r with Ok q => Some [h_k q; h_s q; h_p q; h_d q] | Raises => None end.
 Definition olz_eqb := option_eqb zl_eqb.
 Definition flags (l : list bool) : list (bool * bool) := map (fun b => (b, true)) l.
+
+(* ---------------------------------------------------------------- layer classes: constructor normalisation, then the functional op *)
+Definition layer_conv2d (N C H W Co : Z) (k s : arg) (p : padarg) (d : arg) (x w : list Z) (b : option (list Z)) : option (list Z) :=
+  match conv2d_ctor k s p d with
+  | Ok q => let g := mk_geom N C H W q in if accepts2 g then Some (run_conv2d g Co x w b) else None
+  | Raises => None
+  end.
+Definition layer_conv2d_shape (N C H W Co : Z) (k s : arg) (p : padarg) (d : arg) : option (Z * Z * Z * Z) :=
+  match conv2d_ctor k s p d with Ok q => out_shape2 Co (mk_geom N C H W q) | Raises => None end.
+Definition layer_conv1d (N C W Co : Z) (k s : Z) (p : padarg1) (d : Z) (x w : list Z) (b : option (list Z)) : option (list Z) :=
+  match conv1d_ctor k s p d with
+  | Ok q => let g := mk_geom1 N C W q in if accepts1 g then Some (run_conv1d g Co x w b) else None
+  | Raises => None
+  end.
+Definition layer_maxpool2d (N C H W : Z) (k : arg) (s : option arg) (p d : arg) (x : list Z) : option (list (option Z)) :=
+  match pool2d_ctor k s p d with
+  | Ok q => let g := mk_geom N C H W q in if accepts2 g then Some (run_maxpool2d g x) else None
+  | Raises => None
+  end.
+Definition layer_avgpool2d (N C H W : Z) (k : arg) (s : option arg) (p d : arg) (x : list Z) : option (list Q) :=
+  match pool2d_ctor k s p d with
+  | Ok q => let g := mk_geom N C H W q in if accepts2 g then Some (run_avgpool2d g x) else None
+  | Raises => None
+  end.
+Definition layer_unfold (N C H W : Z) (k s p d : arg) (x : list Z) : option (list Z) :=
+  match unfold_ctor k s p d with
+  | Ok q => let g := mk_geom N C H W q in if accepts2 g then Some (run_unfold g 0 x) else None
+  | Raises => None
+  end.
+Definition layer_maxpool1d (N C W : Z) (k : Z) (s : option Z) (p d : Z) (x : list Z) : option (list (option Z)) :=
+  let g := mk_geom1 N C W (pool1d_ctor k s p d) in if accepts1 g then Some (run_maxpool1d g x) else None.
+Definition layer_avgpool1d (N C W : Z) (k : Z) (s : option Z) (p d : Z) (x : list Z) : option (list Q) :=
+  let g := mk_geom1 N C W (pool1d_ctor k s p d) in if accepts1 g then Some (run_avgpool1d g x) else None.
+
+Definition oql_eqb (a : option (list Q)) (e : option (list Z)) : bool :=
+  match a, e with Some l, Some l' => ql_eqb l l' | None, None => true | _, _ => false end.
+Definition ozl_eqb (a e : option (list Z)) : bool := option_eqb zl_eqb a e.
+Definition ool_eqb (a e : option (list (option Z))) : bool := option_eqb ol_eqb a e.
